@@ -489,7 +489,9 @@ class Envelope:
         # Handle the measurement if the state is in composite envelope product state
         if self.composite_envelope_id is not None:
             assert self.composite_envelope is not None
-            return self.composite_envelope.measure_POVM(operators, *states)
+            return self.composite_envelope.measure_POVM(
+                operators, *states, destructive=destructive
+            )
 
         # Expand to matrix state if not alreay in it
         assert isinstance(self.expansion_level, ExpansionLevel)
